@@ -15,7 +15,8 @@ import (
 // iteration order under which a given scenario violates C05 by drawing choice sequences
 // at random, and writes it as a replay file. The replay itself is deterministic; the
 // registered checks only ever replay the recorded sequence.
-//   VERIF_SEARCH=<scenario.json> VERIF_SEARCH_OUT=<replay.json> go test -overlay ... -run TestSearchWitness ./harness
+//
+//	VERIF_SEARCH=<scenario.json> VERIF_SEARCH_OUT=<replay.json> go test -overlay ... -run TestSearchWitness ./harness
 func TestSearchWitness(t *testing.T) {
 	in := os.Getenv("VERIF_SEARCH")
 	if in == "" {
